@@ -1,12 +1,12 @@
 #!/bin/sh
 # usage: tools/intake3.sh Cxx  — split the round-3 deliverables of /tmp/seed-Cxx-3-out (patchA/B, demoA/B, notes.md) into
 # seeded/Cxx-3a and seeded/Cxx-3b and run every property's rules on each change.
-P=$1; O=/tmp/seed-$P-3-out
+R=${R:-3}; P=$1; O=/tmp/seed-$P-$R-out
 cd /verif
 for x in A B; do
   lx=$(echo $x | tr AB ab)
-  d=seeded/$P-3$lx
-  [ -f $O/patch$x.diff ] || { echo "$P-3$lx: no patch$x.diff"; continue; }
+  d=seeded/$P-$R$lx
+  [ -f $O/patch$x.diff ] || { echo "$P-$R$lx: no patch$x.diff"; continue; }
   mkdir -p $d
   cp $O/patch$x.diff $d/patch.diff; cp $O/demo$x.diff $d/demo.diff 2>/dev/null; cp $O/notes.md $d/notes.md 2>/dev/null
   echo "=== $P-3$lx"; grep "^[-+]" $d/patch.diff | grep -v "^+++\|^---" | cut -c1-170 | head -14
